@@ -108,6 +108,9 @@ def run(prog: Program, rep: Report, tier: str):
     rule_bind(prog, rep)
     rule_access(prog, rep)
     rule_covariance(prog, rep)
+    # ... with the Cholesky factor reaching the triangular matrix entry by entry
+    from .c07 import rule_tri
+    rule_tri(prog, rep, R="C05.tri")
     rule_nan(prog, rep, "C05.nan")
     rule_mix(prog, rep)
     rule_param_bijections(prog, rep)
